@@ -400,3 +400,29 @@ def expand_match_any(text):
                 arms.append((text[a[0].start:a[-1].end], body))
         new = "match " + scrut + " {\n" + "".join(f"            {p} => {b},\n" for p, b in arms) + "        }"
         text = text[:toks[idx].start] + new + text[toks[c].end:]
+
+
+def find_semi_item(src, kind, name):
+    """top-level `type NAME ... ;` / `struct NAME(...);` items (terminated by ';'), returns text incl. `pub`"""
+    toks = lex(src)
+    k = 0
+    depth = 0
+    while k < len(toks):
+        t = toks[k]
+        if t.kind == "open":
+            k = match_close(toks, k) + 1
+            continue
+        if t.kind == "ident" and t.text == kind and k + 1 < len(toks) and toks[k + 1].text == name:
+            j = k + 2
+            while j < len(toks) and not (toks[j].kind == "punct" and toks[j].text == ";"):
+                if toks[j].kind == "open":
+                    if toks[j].text == "{":
+                        raise ExtractError(f"{kind} {name}: brace body where ';' item expected")
+                    j = match_close(toks, j)
+                j += 1
+            s = k
+            if s > 0 and toks[s - 1].kind == "ident" and toks[s - 1].text == "pub":
+                s -= 1
+            return src[toks[s].start:toks[j].end]
+        k += 1
+    raise ExtractError(f"item not found: {kind} {name}")
